@@ -30,6 +30,9 @@ def run(tier, seed, t0):
             if e["r1"] != e["r2"]:
                 v.violation({"property": PID, "event": e, "what": "the single-child collection %s and its child %s answer differently against B=%s: %s vs %s" % (
                     json.dumps(e["A2"])[:200], json.dumps(e["A"])[:200], json.dumps(e["B"])[:200], e["r2"], e["r1"])})
+    for e in events:
+        if e["op"] == "compose" and e["got"] != e["some_child"]:
+            v.violation({"property": PID, "event": e, "what": "%s %s: the collection answers %s, some child answers %s" % (e["kind"], e["what"], e["got"], e["some_child"])})
     rc = v.finish()
     cov = {
         "states": meta["distinct"], "transitions": meta["generated"], "traces_validated_against_impl": 0,
